@@ -84,6 +84,11 @@ structure RaceSt where
   putPending : List Nat := []
   /-- consumer pumps between the queue receive and StartInFlightTimeout (`proto.pump.afterRecv`) -/
   pumpHolds : List Nat := []
+  /-- the timeout scan between `popInFlightMessage` and `put` (message in no container) -/
+  scanHolds : List Nat := []
+  /-- model parameter: the scan holds `exitMutex.RLock` across that window (true on the tree: tie
+  `scan_holds_exit_lock`); `Channel.exit` then cannot run inside it -/
+  scanLock : Bool := true
   memCap : Nat := 4
 deriving Repr, DecidableEq
 
@@ -93,6 +98,8 @@ inductive RaceStep where
   | fanout                  -- topic pump moves the head of the topic queue to the channel
   | pumpRecv                -- consumer pump receives the head of the channel's memory queue
   | pumpRegister (m : Nat)  -- … StartInFlightTimeout (then the send on the closed connection fails)
+  | scanTake (m : Nat)      -- processInFlightQueue: a timed-out message leaves the in-flight map
+  | scanPut (m : Nat)       -- … and is put back on the queue ("exiting": dropped, when the channel has closed)
   | exitFlag                -- Topic.exit: exitFlag := 1, pump stopped
   | exitChan                -- Channel.exit(false): flush memory + in-flight to disk, close backend
   | exitTopicFlush          -- Topic.flush + backend.Close
@@ -124,10 +131,22 @@ def raceStep (s : RaceSt) : RaceStep → Option RaceSt
   | .pumpRegister m =>
     if m ∈ s.pumpHolds then some { s with inflight := m :: s.inflight, pumpHolds := s.pumpHolds.erase m }
     else none
+  | .scanTake m =>
+    if s.chanClosed then none                           -- `Exiting()` is tested first
+    else if m ∈ s.inflight then some { s with inflight := s.inflight.erase m, scanHolds := m :: s.scanHolds }
+    else none
+  | .scanPut m =>
+    if m ∈ s.scanHolds then
+      if s.chanClosed then some { s with scanHolds := s.scanHolds.erase m }      -- lost
+      else if s.chanMem.length < s.memCap then
+        some { s with chanMem := s.chanMem ++ [m], scanHolds := s.scanHolds.erase m }
+      else some { s with chanDisk := s.chanDisk ++ [m], scanHolds := s.scanHolds.erase m }
+    else none
   | .exitFlag =>
     if s.topicExiting then none else some { s with topicExiting := true }
   | .exitChan =>
-    if s.topicExiting && !s.chanClosed then
+    if s.scanLock && !s.scanHolds.isEmpty then none     -- exitMutex: exit waits for the scan
+    else if s.topicExiting && !s.chanClosed then
       some { s with chanDisk := s.chanDisk ++ s.chanMem ++ s.inflight, chanMem := [], chanClosed := true }
     else none
   | .exitTopicFlush =>
@@ -147,6 +166,7 @@ message is on one of the two disk queues -/
 def allAckedOnDisk (s : RaceSt) : Bool :=
   s.acked.all (fun m => s.topicDisk.contains m || s.chanDisk.contains m)
 
-def raceDone (s : RaceSt) : Bool := s.topicClosed && s.putPending.isEmpty && s.pumpHolds.isEmpty
+def raceDone (s : RaceSt) : Bool :=
+  s.topicClosed && s.putPending.isEmpty && s.pumpHolds.isEmpty && s.scanHolds.isEmpty
 
 end Nsq.Model.Restart
